@@ -566,6 +566,7 @@ class Grid:
         """
 
         interp_axes = []
+        interp_to = {}
         for axname, axis in self.axes.items():
             try:
                 position_array, _ = axis._get_position_name(array)
@@ -578,10 +579,13 @@ class Grid:
                 continue
             if position_like != position_array:
                 interp_axes.append(axname)
+                # interpolate to the position of `like`, not to the default shift
+                interp_to[axname] = position_like
 
         array = self.interp(
             array,
             interp_axes,
+            to=interp_to,
             fill_value=fill_value,
             boundary=boundary,
         )
